@@ -35,6 +35,7 @@ pub use util::process_multiple_changes;
 #[cfg(corro_verif)]
 pub mod verif_hooks {
     pub use super::handlers::handle_changes;
+    pub use super::handlers::handle_sync;
     pub use super::util::VERIF_FAIL_BATCHES;
 }
 
